@@ -150,11 +150,62 @@ func init() {
 		for k, why := range choiceJustified {
 			coarse[coarseChoice(k)] = why
 		}
+		// code that moved: a site in a function the reference tree does not have is judged by the reviewed sites of the
+		// functions that call it (the block was extracted from one of them); a site in a function that swallowed a
+		// vanished single-caller helper is judged by that helper's reviewed sites. The kind of site may change with the
+		// move (a store inside the loop becomes a per-element store of a helper): stores and picks are two classes.
+		class := func(ck string) string {
+			i := strings.Index(ck, ": ")
+			if i < 0 {
+				return ""
+			}
+			switch ck[i+2:] {
+			case "keyed store", "per-element store", "last-wins assignment", "call of":
+				return "store"
+			case "constant index on unordered slice", "first-match return", "first-match break":
+				return "pick"
+			}
+			return ""
+		}
+		byFnClass := map[string]string{}
+		for ck, why := range coarse {
+			if i := strings.Index(ck, ": "); i >= 0 && class(ck) != "" {
+				byFnClass[stripStar(ck[:i])+"|"+class(ck)] = why
+			}
+		}
+		moved := func(k string) (string, bool) {
+			ck := coarseChoice(k)
+			i := strings.Index(ck, ": ")
+			if i < 0 || class(ck) == "" {
+				return "", false
+			}
+			fnKey := ck[:i]
+			var related []string
+			if !p.RefHasFunc(fnKey) {
+				for _, fd := range p.Funcs {
+					for _, callee := range p.CalleesOf(fd) {
+						if core.FuncKey(callee) == fnKey {
+							related = append(related, fd.Key())
+						}
+					}
+				}
+			}
+			related = append(related, p.VanishedInto(fnKey)...)
+			related = append(related, p.VanishedInto(stripStar(fnKey))...)
+			for _, rf := range related {
+				if why, ok := byFnClass[stripStar(rf)+"|"+class(ck)]; ok {
+					return why + " (the code moved: reviewed as a site of " + rf + ")", true
+				}
+			}
+			return "", false
+		}
 		for _, k := range cs {
 			if why, ok := choiceJustified[k]; ok {
 				r.Add("C08-choice", k, res.Choice[k], core.Excepted, why)
 			} else if why, ok := coarse[coarseChoice(k)]; ok {
 				r.Add("C08-choice", k, res.Choice[k], core.Excepted, why+" (same function and kind of site as the reviewed one)")
+			} else if why, ok := moved(k); ok {
+				r.Add("C08-choice", k, res.Choice[k], core.Excepted, why)
 			} else {
 				r.Bad("C08-choice", k, res.Choice[k], "an order-dependent choice (which element of an unordered sequence comes first/last decides the effect) that is neither key-determined nor in the justification table: the result may differ between runs on the same resources")
 			}
@@ -164,6 +215,9 @@ func init() {
 		r.Assume("netset.DisjointIPBlocks and IPBlock.Union depend on their slice arguments as sets")
 	})
 }
+
+// stripStar removes the pointer marker of a receiver from a function key.
+func stripStar(k string) string { return strings.Replace(k, "(*", "(", 1) }
 
 // coarseChoice: "<function>: <kind of choice site>" without the expression.
 func coarseChoice(k string) string {
